@@ -492,6 +492,9 @@ def run(prop, tier):
             if j + 1 >= len(toks) or not toks[j + 1].isdigit():
                 break
             j += 2 + int(toks[j + 1])
+        if om != oi and corr.parse_differs(src, 0):
+            r.count('skipped:parse-differs')
+            continue
         if om != oi:
             r.fail(Failure(prop, 'K-edit', {'source': src, 'ops': [list(map(str, o)) for o in ops]},
                            {'implementation': oi[:600]}, {'model': om[:600]},
